@@ -4,6 +4,31 @@ import json, glob, os
 ROOT = os.path.dirname(os.path.dirname(os.path.abspath(__file__)))
 # seeds that the quick tier missed when first tried, and what was strengthened
 HISTORY = {
+ "C04-m": "missed at first (no discretionary with a non-empty pre-break of zero width); zero-width pre-breaks in disc-penalties",
+ "C04-p": "missed at first (line_penalty only -1/0/1); line_penalty on both sides of +-10000",
+ "C05-n": "missed at first (one font per preprocessor); family add-word-history (two fonts, operation histories)",
+ "C05-p": "missed at first (per-call comparison); whole-list comparison, back-to-back words with boundary kerns",
+ "C07-m": "thread-schedule change filed under C07; caught by C20's schedule engine",
+ "C07-n": "missed at first (only five conditionals in the trees); every installed conditional + a harness Condition without DOC; start-up guard on the real built_in_commands map",
+ "C07-p": "missed at first (one literal space before relations); space tokens produced by expansion",
+ "C08-m": "missed at first (continuation errors never located at pre-checkpoint tokens / not rendered); faulty stored tokens, rendered errors compared",
+ "C08-n": "missed at first; catcode set to the type default where the initial table differs (sparse-encoding killer)",
+ "C08-o": "missed at first (\\global after the checkpoint only with \\def/variables); every prefixable command kind after the checkpoint; serde(skip) fields walked",
+ "C09-o": "missed at first (no 'define a multibyte name, then hit an undefined command' under the default handlers)",
+ "C10-m": "missed at first (header sweeps against short files only); family tfm-max-length",
+ "C11-o": "missed at first; SKIP landing exactly on the final boundary-entrypoint word",
+ "C12-n": "missed at first (only explicit and font kerns in hand-built lists); accent and math kerns",
+ "C12-p": "missed by C12 at first (caught by C15); lines with two different infinite orders",
+ "C13-p": "missed at first (every harness LowerCaser fixed a..z); a map that is not the identity on ASCII lower case",
+ "C14-n": "missed by C14 at first (caught by C13); family cmr10-custom-patterns (long patterns through the list route)",
+ "C14-o": "missed at first; every node kind as the node that terminates a word",
+ "C14-p": "missed at first; letters immediately followed by digits",
+ "C15-p": "missed at first; kerns of all four kinds",
+ "C17-p": "missed at first (compress tested with every limit, call sites' limits not); family pl-table-limits-through-conversion",
+ "C19-m": "missed at first; \\read inside groups under \\globaldefs (a first version over-demanded \\global\\read: corrected, see AUDIT)",
+ "C19-n": "missed by C19 at first (caught by C03); files whose unterminated last line is spaces only",
+ "C19-o": "missed at first; \\input issued from macro bodies with pending tokens, files expanding > 32 tokens at once",
+ "C20-p": "missed at first (only issued keys resolved); resolve of the first unissued key at every step",
  "C02-k": "missed at first (only inert tokens inside arguments); family expandable-tokens-in-arguments",
  "C05-k": "missed at first (add-word route compared glyphs, not node kinds); Ligature vs Char distinguished",
  "C08-k": "missed at first (delimiters of <= 2 tokens at the checkpoint); containers with >= 3 distinct elements",
